@@ -1,9 +1,116 @@
+import ScenicModel.Gen.SpecTable
 import Driver.Util
-/-! line protocol for the C06 model (stub: replaced when the property's model is built) -/
+/-! line protocol for the specifier-resolution model (C06); built-in specifiers are instantiated
+from the table regenerated from /repo (`Gen/SpecTable.lean`).
+
+Tokens never contain spaces; inside a token the separators are `|` `;` `,` `=` `:` (names are
+sanitised by the harness).  `-` is the empty list.
+
+* `resolve <3|2[F]> <class> <spec>*`
+    class = `<defaults>|<finals>`, defaults = `p:d1,d2;q:`, finals = `f1,f2`
+    spec  = `name|p=1,q=3|d1,d2|M or N|m1,m2`   (a raw descriptor)
+          | `@key|prop|extra1,extra2`            (an instance of the generated table)
+    mode 2 applies `prepare2D` first (`2F`: the value of `with heading` is a vector field)
+    -> `ok <assign> <modifier> <trace>` | `err <kind>`
+* `entry <key>` -> the table entry as a raw descriptor
+* `merge <classdecl>*`, classdecl = `name|p:d1,d2:adf;q::` -> `ok <defaults> <finals> <dynamics>` | `err`
+* `transform2d p1,p2,...` -> `ok p1,...` | `err`
+-/
 namespace Driver.C06
-open Driver
+open Driver Scenic.Spec
+
+def splitL (sep : String) (s : String) : List String :=
+  if s == "-" || s == "" then [] else s.splitOn sep
+
+def joinL (sep : String) (l : List String) : String :=
+  if l.isEmpty then "-" else sep.intercalate l
+
+def parsePrios (s : String) : Option (List (String × Nat)) :=
+  (splitL "," s).mapM fun e => match e.splitOn "=" with
+    | [p, k] => k.toNat?.map fun k => (p, k)
+    | _ => none
+
+def parseSpec (tok : String) : Option Spec :=
+  if tok.startsWith "@" then
+    match (tok.drop 1).toString.splitOn "|" with
+    | [key, prop, extra] =>
+      (Scenic.Gen.specTable.find? (fun e => e.key = key)).map fun e => e.inst prop (splitL "," extra)
+    | _ => none
+  else
+    match tok.splitOn "|" with
+    | [name, pr, deps, m, mods] => do
+      let pr ← parsePrios pr
+      pure ⟨name, pr, splitL "," deps, m == "M", splitL "," mods⟩
+    | _ => none
+
+def parseClass (tok : String) : Option ClassInfo :=
+  match tok.splitOn "|" with
+  | [defs, finals] => do
+    let ds ← (splitL ";" defs).mapM fun e => match e.splitOn ":" with
+      | [p, d] => some (p, splitL "," d)
+      | _ => none
+    pure ⟨ds, splitL "," finals, Scenic.Gen.modifierOrdersAllProps⟩
+  | _ => none
+
+def showNode : Node → String
+  | .user n => "u:" ++ n.replace " " "+"
+  | .dflt p => "d:" ++ p
+
+def showErr : Err → String
+  | .dupName => "dupName" | .finalProp => "finalProp" | .tie => "tie"
+  | .modifiedTwice => "modifiedTwice" | .cycle => "cycle" | .missingDep => "missingDep" | .fuel => "fuel"
+
+def showMap (m : List (String × Node)) : String :=
+  joinL "," (m.map fun e => e.1 ++ "=" ++ showNode e.2)
+
+def showOutcome (o : Outcome) : String :=
+  "ok " ++ showMap o.assign ++ " " ++ showMap o.modifier ++ " " ++
+    joinL ";" ((trace o).map fun e => showNode e.1 ++ "[" ++ ",".intercalate e.2 ++ "]")
+
+def showSpec (s : Spec) : String :=
+  "|".intercalate [s.name.replace " " "+", joinL "," (s.prios.map fun e => e.1 ++ "=" ++ toString e.2), joinL "," s.deps,
+    (if s.modifying then "M" else "N"), joinL "," s.modifiable]
+
+/-- the `Facing` specifier that `_prepareSpecifiers` builds from `with heading X` -/
+def facingFor (field : Bool) (s : Spec) : Spec :=
+  match Scenic.Gen.specTable.find? (fun e => e.key = (if field then "Facing/field" else "Facing/value")) with
+  | some e => e.inst "" (if e.valueDeps then s.deps else [])
+  | none => s
+
+def parseDecl (tok : String) : Option ClassDecl :=
+  match tok.splitOn "|" with
+  | [name, props] => do
+    let ps ← (splitL ";" props).mapM fun e => match e.splitOn ":" with
+      | [p, d, fl] => some (p, (⟨splitL "," d, fl.contains 'a', fl.contains 'd', fl.contains 'f'⟩ : PropDefault))
+      | _ => none
+    pure ⟨name, ps⟩
+  | _ => none
 
 def handle : List String → String
+  | "resolve" :: mode :: cls :: specs =>
+    match parseClass cls, specs.mapM parseSpec with
+    | some C, some S =>
+      let S := if mode.startsWith "2" then prepare2D (facingFor (mode == "2F")) S else S
+      match resolve C S with
+      | .ok o => showOutcome o
+      | .error e => "err " ++ showErr e
+    | _, _ => "bad-op"
+  | ["entry", key] =>
+    match Scenic.Gen.specTable.find? (fun e => e.key = key) with
+    | some e => showSpec e.spec ++ " " ++ (if e.valueDeps then "V" else "-")
+    | none => "none"
+  | "merge" :: decls =>
+    match decls.mapM parseDecl with
+    | some mro =>
+      match mergeDefaults mro with
+      | some m => "ok " ++ joinL ";" (m.defaults.map fun e => e.1 ++ ":" ++ joinL "," e.2.deps ++ ":" ++ joinL "," e.2.sources)
+          ++ " " ++ joinL "," m.finals ++ " " ++ joinL "," m.dynamics
+      | none => "err"
+    | none => "bad-op"
+  | ["transform2d", props] =>
+    match transform2D ((splitL "," props).map fun p => (p, p)) with
+    | some r => "ok " ++ joinL "," (r.map fun e => e.1 ++ "<" ++ e.2)
+    | none => "err"
   | _ => "bad-op"
 
 end Driver.C06
